@@ -38,7 +38,7 @@ def run(tier, replay=None):
         for b in beh:
             f.write(json.dumps(b) + "\n")
     drive = vlib.build_harness(cmd="c15")
-    n, workers = (300, 6) if quick else (3200, 8)
+    n, workers = (300, 6) if quick else (0, 8)
     st = vlib.run_driver(drive, ["-out", c.work / "c15", "-gen", genf, "-work", c.work / "run", "-seed", c.seed,
                                  "-n", n, "-workers", workers], timeout=3000)
     # vacuity guards (machinery, never a verdict)
